@@ -12,6 +12,7 @@ line for the Lean driver: the regex engine is data here, not part of the model (
 """
 import os, re, time, itertools, subprocess, concurrent.futures
 from .. import common as C
+from .. import ctie
 
 ALPHA = [0x61, 0x62, 0xE9]
 HARNESS = os.path.join(C.VERIF, "harness", "strfn_h.c")
@@ -1569,6 +1570,7 @@ THEOREMS_ABOUT = {
 
 def run(ctx):
     proof = C.prove(ctx, "HawkModel.Props.C13", leanchecker=(ctx.tier == "thorough"))
+    tie = ctie.tie(ctx, "C13", leanchecker=(ctx.tier == "thorough"))   # substr index/length clamps of fnc.c: translated C = model
     libdir, exe = build(ctx)
     rng = ctx.rng
     ops = corpus_ops()
@@ -1673,7 +1675,7 @@ def run(ctx):
         if tg & NONTRIVIAL and results[i] is not None:
             nontriv.add(opline(op))
     samples = [describe(ops[k]) + "  =>  " + str(results[k]) for k in (ncorpus + 7, ncorpus + nexh // 2, len(ops) - 3, len(ops) - 2) if k < len(ops)]
-    return C.finish(ctx, [proof], len([r for r in results if r is not None]) + compared, len(nontriv),
+    return C.finish(ctx, [proof] + tie, len([r for r in results if r is not None]) + compared, len(nontriv),
                     "calls = corpus + exhaustive small scope (subjects over {a,b,é} up to length 3..5 in every carrying value type x start/len in [-3,8]+{1.5,2.7} x "
                     "pattern set x templates over {x,&,\\} up to length 4 x separators) + seeded random longer subjects with multibyte characters; each call's result, "
                     "by-reference target, collection, RSTART/RLENGTH, NF, $0, sentinel and global signature checked (1) against the defining equations evaluated in python on hawk's own output, "
